@@ -5,7 +5,7 @@ from common import *
 SCRATCH = os.environ.get("VERIF_SCRATCH", f"/tmp/verif-replay-{PROP}-{os.getpid()}")
 _built = {}
 PROM_BINS = {"c18", "c07", "c08", "c15", "c12p"}
-TRACE_BINS = {"c17"}      # replay programs that need the Prometheus exporter (own crate: hyper/tokio are slow to build)
+TRACE_BINS = {"c17", "c17t"}      # replay programs that need the Prometheus exporter (own crate: hyper/tokio are slow to build)
 
 
 MARKS = {"push_done", "read_begin", "empty_begin"}
